@@ -188,9 +188,24 @@ impl Hooks for Chk {
             self.step = 0;
             self.mine.clear();
             self.mine_alt = None;
-            for n in [0usize, 1, 7, 100] {
-                let cap = Arena::<Pay>::with_capacity(n).capacity();
+            for n in [0usize, 1, 7, 100, 5000] {
+                let mut a = Arena::<Pay>::with_capacity(n);
+                let cap = a.capacity();
                 self.ck("C13", cap >= n, || format!("with_capacity({}).capacity() = {}", n, cap));
+                // clear() keeps the capacity, whatever its size
+                for v in 0..3u64 {
+                    a.new_node(Pay { v, tag: 0 });
+                }
+                let before = a.capacity();
+                a.clear();
+                let after = a.capacity();
+                self.ck("C13", after == before && after >= n, || format!("clear() changed the capacity of a with_capacity({}) arena from {} to {}", n, before, after));
+                a.reserve(n + 3000);
+                let reserved = a.capacity();
+                self.ck("C13", reserved >= n + 3000, || format!("reserve({}) on an empty arena gives capacity {}", n + 3000, reserved));
+                a.clear();
+                let kept = a.capacity();
+                self.ck("C13", kept == reserved, || format!("clear() changed the capacity from {} to {}", reserved, kept));
             }
         }
         let so = self.shadow.step(cmd).unwrap_or_default();
@@ -234,7 +249,7 @@ impl Hooks for Chk {
                     self.mine.retain(|id| !doomed.contains(id));
                 }
                 "clear" => self.mine.clear(),
-                "fork" if obs == "r ok" => self.mine_alt = Some(self.mine.clone()),
+                "fork" | "forkfrom" if obs == "r ok" => self.mine_alt = Some(self.mine.clone()),
                 "swap" => {
                     if let Some(a) = self.mine_alt.as_mut() {
                         std::mem::swap(&mut self.mine, a);
